@@ -95,7 +95,7 @@ func rebuildUpdateCommand() {
 
 func performUpdate(processAll bool, ctx *processors.Context) {
 	if processAll {
-		err := filepath.WalkDir(ctx.RootContext().AssemblyDir(), func(filePath string, dirEntry fs.DirEntry, err error) error {
+		err := filepath.WalkDir(utils.WalkRoot(ctx.RootContext().AssemblyDir()), func(filePath string, dirEntry fs.DirEntry, err error) error {
 			if err != nil {
 				// fail: a directory that cannot be listed must not pass for an empty one
 				return err
